@@ -197,7 +197,17 @@ def canary():
     v2 = smt.prove([ir.ge(w, 1), ir.ge(y, 0)], ir.eq(ir.M(y, w), y), mode='int', timeout_s=5)
     # and one that must be proved, so that 'everything refuted' is not mistaken for health
     v3 = smt.prove([ir.ge(w, 1), ir.ge(y, 0), ir.lt(y, ir.pow2(w))], ir.eq(ir.M(y, w), y), mode='int', timeout_s=5)
-    return v1.status == 'refuted' and v2.status == 'refuted' and v3.status == 'proved'
+    ok = v1.status == 'refuted' and v2.status == 'refuted' and v3.status == 'proved'
+    # engine differential on a few random terms (native evaluation vs both encodings): an unsound encoding must not pass silently
+    try:
+        import io, contextlib, importlib.util
+        spec = importlib.util.spec_from_file_location('selftest_ir', os.path.join(os.path.dirname(os.path.dirname(os.path.abspath(__file__))), 'tools', 'selftest_ir.py'))
+        m = importlib.util.module_from_spec(spec); spec.loader.exec_module(m)
+        with contextlib.redirect_stdout(io.StringIO()):
+            ok = ok and m.main(30, int(os.environ.get('VERIF_SEED', '0') or 0) + 11) == 0
+    except Exception:
+        ok = False
+    return ok
 
 
 # ----------------------------------------------------------------------------- structural blocks
